@@ -173,3 +173,39 @@ func VerifH_C16_rowsSurviveUntilNextCall() {
 	rr.Close()
 	vCover("rows")
 }
+
+// (c) values read from an in-memory row group (GenericBuffer) survive the
+// buffer's Reset and later buffer activity: the buffer's column storage goes
+// back to the slice pools on Reset and is handed to the next buffer.
+type verifRecR struct {
+	ID     int64  `parquet:"id"`
+	Amount []byte `parquet:"amount,decimal(2:20)"` // FIXED_LEN_BYTE_ARRAY(9)
+	Note   string `parquet:"note"`
+}
+
+func verifAmount9(b byte) []byte { return []byte{b, 1, 2, 3, 4, 5, 6, 7, b} }
+
+func VerifH_C16_bufferValuesSurviveReset() {
+	vUnwind(1 << 14)
+	rows := []verifRecR{{ID: 1, Amount: verifAmount9(vU8("a0")), Note: "n" + vString("note", 1)}, {ID: 2, Amount: verifAmount9(0x22), Note: "two"}}
+	buffer := NewGenericBuffer[verifRecR]()
+	if _, err := buffer.Write(rows); err != nil {
+		vAssert(false, "buffer accepts the rows")
+		return
+	}
+	r := NewGenericRowGroupReader[verifRecR](buffer)
+	out := make([]verifRecR, 3)
+	n, _ := r.Read(out)
+	r.Close()
+	vAssert(n == len(rows), "rows are read from the buffer")
+	kept := append([]verifRecR(nil), out[:n]...)
+	buffer.Reset()
+	// later activity that takes storage from the same pools
+	other := NewGenericBuffer[verifRecR]()
+	other.Write([]verifRecR{{ID: 9, Amount: verifAmount9(0xEE), Note: "XXXX"}, {ID: 8, Amount: verifAmount9(0xDD), Note: "YYYY"}, {ID: 7, Amount: verifAmount9(0xCC), Note: "ZZZZ"}})
+	buffer.Write([]verifRecR{{ID: 6, Amount: verifAmount9(0xBB), Note: "WWWW"}})
+	for i := 0; i < n && i < len(rows); i++ {
+		vAssert(kept[i].ID == rows[i].ID && kept[i].Note == rows[i].Note && bytes.Equal(kept[i].Amount, rows[i].Amount), "values read from a buffer are unchanged after its Reset and later buffer activity")
+	}
+	vCover("buffer values")
+}
